@@ -101,3 +101,80 @@ pub fn http_post(port: u16, body: &str) -> Result<(String, String), String> {
     };
     Ok((status, body))
 }
+
+// ------------------------------------------------------------------ raw TCP client
+
+/// Sends `payload` (already containing the newlines) in one write, then collects everything the server
+/// sends until it has been silent for `quiet_ms` (bounded by `max_ms`). Err = connect / IO failure.
+pub fn tcp_exchange(port: u16, payload: &[u8], quiet_ms: u64, max_ms: u64) -> Result<String, String> {
+    let mut s = TcpStream::connect(("127.0.0.1", port)).map_err(|e| format!("connect: {}", e))?;
+    s.set_read_timeout(Some(Duration::from_millis(quiet_ms))).ok();
+    s.write_all(payload).map_err(|e| format!("write: {}", e))?;
+    let t0 = std::time::Instant::now();
+    let mut out = vec![];
+    let mut buf = [0u8; 4096];
+    loop {
+        match s.read(&mut buf) {
+            Ok(0) => break,
+            Ok(n) => out.extend_from_slice(&buf[..n]),
+            Err(e) if e.kind() == std::io::ErrorKind::WouldBlock || e.kind() == std::io::ErrorKind::TimedOut => {
+                if !out.is_empty() || t0.elapsed() > Duration::from_millis(max_ms) {
+                    break;
+                }
+            }
+            Err(e) => return Err(format!("read: {}", e)),
+        }
+        if t0.elapsed() > Duration::from_millis(max_ms) {
+            break;
+        }
+    }
+    Ok(String::from_utf8_lossy(&out).to_string())
+}
+
+// ------------------------------------------------------------------ WebSocket client (ws crate)
+
+#[derive(Clone, Debug)]
+pub enum Frame {
+    Text(String),
+    Binary(Vec<u8>),
+}
+
+struct WsClient {
+    out: ws::Sender,
+    frames: Vec<Frame>,
+    got: std::sync::mpsc::Sender<String>,
+    wait_ms: u64,
+}
+
+impl ws::Handler for WsClient {
+    fn on_open(&mut self, _: ws::Handshake) -> ws::Result<()> {
+        for f in self.frames.iter() {
+            match f {
+                Frame::Text(t) => self.out.send(ws::Message::Text(t.clone()))?,
+                Frame::Binary(b) => self.out.send(ws::Message::Binary(b.clone()))?,
+            }
+        }
+        self.out.timeout(self.wait_ms, ws::util::Token(1))
+    }
+    fn on_message(&mut self, msg: ws::Message) -> ws::Result<()> {
+        let _ = self.got.send(msg.to_string());
+        Ok(())
+    }
+    fn on_timeout(&mut self, _: ws::util::Token) -> ws::Result<()> {
+        self.out.close(ws::CloseCode::Normal)
+    }
+}
+
+/// Opens a WebSocket connection, sends the frames, collects text messages for `wait_ms`, closes.
+pub fn ws_exchange(port: u16, frames: Vec<Frame>, wait_ms: u64) -> Result<Vec<String>, String> {
+    let (tx, rx) = std::sync::mpsc::channel();
+    let url = format!("ws://127.0.0.1:{}", port);
+    let h = std::thread::spawn(move || ws::connect(url, |out| WsClient { out, frames: frames.clone(), got: tx.clone(), wait_ms }).map_err(|e| format!("{}", e)));
+    let r = h.join().map_err(|_| "ws client thread panicked".to_string())?;
+    r?;
+    let mut out = vec![];
+    while let Ok(m) = rx.try_recv() {
+        out.push(m);
+    }
+    Ok(out)
+}
